@@ -60,6 +60,52 @@ EVENT_ARGS = {
 }
 
 
+_SPECS = {}   # id(model object) -> (object, spec it was built from); see gen_model
+
+
+def gen_model(rng, kind, idx):
+    """A TlTrack / Playlist argument from the Rpc area's model generator (harness/c08.py):
+    every optional field absent or present, nested albums and artist sets (0-3 artists, names
+    and uris present or missing, unicode, quotes, NUL), big integers, dates, UUIDs.  Returns
+    None if that generator is unavailable.  The spec is remembered: the expected JSON of the
+    argument is computed from the spec, independently of the models' own serialisers."""
+    try:
+        import c08
+        import mopidy.models as M
+    except Exception:  # noqa: BLE001
+        return None
+    for _ in range(20):
+        spec = c08.gen_tltrack(rng) if kind == "tl_track" else c08.gen_playlist(rng)
+        if kind == "tl_track":
+            spec["tlid"] = idx + 1
+            tracks = [spec["track"]]
+        else:
+            spec["uri"] = f"dummy:p{idx}"
+            tracks = spec["tracks"]
+        if tracks and rng.random() < 0.3:
+            # directed: a set of two or more artists of which one has no name / no fields at all
+            t = rng.choice(tracks)
+            field = rng.choice(["artists", "composers", "performers", "album"])
+            pair = [{"cls": "Artist", "uri": None, "name": None, "sortname": None, "musicbrainz_id": None},
+                    {"cls": "Artist", "uri": "dummy:a", "name": rng.choice(["x", "é", ""]), "sortname": None,
+                     "musicbrainz_id": None}]
+            if rng.random() < 0.5:
+                pair.append(c08.gen_artist(rng))
+            pair = [a for i, a in enumerate(pair) if a not in pair[:i]]
+            if field == "album":
+                t["album"] = c08.gen_album(rng)
+                t["album"]["artists"] = pair
+            else:
+                t[field] = pair
+        try:
+            m = c08.build(M, spec)
+        except Exception:  # noqa: BLE001 - a spec the models reject: try another
+            continue
+        _SPECS[id(m)] = (m, spec)
+        return m
+    return None
+
+
 def make_event(rng, idx, used, allow_repeat=False):
     """An event (name, kwargs) whose serialised content differs from every earlier one of
     the schedule (contents in ``used``), so that a received message identifies its emission."""
@@ -80,14 +126,15 @@ def make_event(rng, idx, used, allow_repeat=False):
         kw = {}
         for a in EVENT_ARGS[name]:
             if a == "tl_track":
-                kw[a] = TlTrack(tlid=idx + 1, track=track())
+                kw[a] = (gen_model(rng, a, idx) if rng.random() < 0.7 else None) or TlTrack(tlid=idx + 1, track=track())
             elif a == "time_position":
                 kw[a] = idx * 1000 + rng.randrange(1000)
             elif a in ("old_state", "new_state"):
                 kw[a] = rng.choice(list(PlaybackState))
             elif a == "playlist":
-                kw[a] = Playlist(uri=f"dummy:p{idx}", name=rng.choice(["pl", "", "☃"]),
-                                 tracks=[track() for _ in range(rng.randrange(3))])
+                kw[a] = (gen_model(rng, a, idx) if rng.random() < 0.7 else None) or Playlist(
+                    uri=f"dummy:p{idx}", name=rng.choice(["pl", "", "☃"]),
+                    tracks=[track() for _ in range(rng.randrange(3))])
             elif a == "uri":
                 kw[a] = f"dummy:p{idx}"
             elif a == "volume":
@@ -112,19 +159,76 @@ def strip_tags(v):
     return v
 
 
+def encode_event(name, kw):
+    """JSON-able description of an emitted event (for replay files)."""
+    out = {}
+    for k, v in kw.items():
+        ent = _SPECS.get(id(v))
+        if ent is not None and ent[0] is v:
+            out[k] = {"spec": ent[1]}
+        elif isinstance(v, (bool, int, str)) and not hasattr(v, "value"):
+            out[k] = {"json": v}
+        elif hasattr(v, "value"):
+            out[k] = {"state": v.value}
+        else:
+            out[k] = {"model_json": json.loads(v.model_dump_json(by_alias=True, exclude_none=True))
+                      if hasattr(v, "model_dump_json") else repr(v)}
+    return [name, out]
+
+
+def decode_event(enc):
+    import c08
+    import mopidy.models as M
+    from mopidy.audio import PlaybackState
+    from pydantic import TypeAdapter
+
+    name, args = enc
+    kw = {}
+    for k, d in args.items():
+        if "spec" in d:
+            m = c08.build(M, d["spec"])
+            _SPECS[id(m)] = (m, d["spec"])
+            kw[k] = m
+        elif "json" in d:
+            kw[k] = d["json"]
+        elif "state" in d:
+            kw[k] = PlaybackState(d["state"])
+        else:
+            kw[k] = TypeAdapter(M.TlTrack if k == "tl_track" else M.Playlist).validate_python(d["model_json"])
+    return name, kw
+
+
+def norm_payload(v):
+    """Canonical form of a JSON payload: model tag spelling normalised (C08 owns it), null
+    members dropped, arrays that come from frozenset fields sorted."""
+    v = strip_tags(v)
+    try:
+        import c08
+        return c08.canon(c08.strip_nulls(v))
+    except Exception:  # noqa: BLE001
+        return v
+
+
 def expected_message(name, kw):
-    """{"event": name} + every argument under its own name; payloads by pydantic itself."""
+    """{"event": name} + every argument under its own name.  Payload of a generated model:
+    straight from the spec it was built from (not through the models' serialisers); other
+    values: pydantic's own dump."""
     from pydantic import TypeAdapter
 
     out = {}
     for k, v in kw.items():
-        out[k] = strip_tags(json.loads(TypeAdapter(type(v)).dump_json(v)))
+        ent = _SPECS.get(id(v))
+        if ent is not None and ent[0] is v:
+            import c08
+            out[k] = norm_payload(c08.spec_json(ent[1]))
+        else:
+            out[k] = norm_payload(json.loads(TypeAdapter(type(v)).dump_json(v)))
     out["event"] = name
     return out
 
 
 def canonical(obj):
-    return json.dumps(strip_tags(obj), sort_keys=True, ensure_ascii=True)
+    return json.dumps(norm_payload(obj), sort_keys=True, ensure_ascii=True)
 
 
 # ----------------------------------------------------------------------------
@@ -818,7 +922,7 @@ REPEATABLE = [("tracklist_changed", {}), ("options_changed", {}), ("playlists_lo
               ("stream_title_changed", {"title": "same"}), ("seeked", {"time_position": 0})]
 
 
-def run_settled(rig, rng, steps, repeats=False):
+def run_settled(rig, rng, steps, repeats=False, preset_events=None):
     """Execute the schedule step by step on the real chain; returns the observation.
     With ``repeats`` the emitted events are drawn from a few content-identical messages
     (identical consecutive events are legitimate and must all be delivered); received
@@ -853,6 +957,10 @@ def run_settled(rig, rng, steps, repeats=False):
         (do_connect if action[0] == "connect" else do_disconnect)(action[1])
 
     def new_event():
+        if preset_events is not None and len(events) < len(preset_events):
+            name, kw = decode_event(preset_events[len(events)])
+            events.append((name, kw, canonical(expected_message(name, kw))))
+            return name, kw
         if repeats:
             name, kw = rng.choice(REPEATABLE[:3] if rng.random() < 0.5 else REPEATABLE)
             content = canonical(expected_message(name, kw))
@@ -896,8 +1004,18 @@ def run_settled(rig, rng, steps, repeats=False):
                 name, kw = new_event()
                 proxy.gated = True
                 proxy.arrived.clear()
+                n_log = len(rig.actor_log.records)
                 rig.emit(name, kw)
-                rig.wait_blocked_or_idle(proxy)
+                try:
+                    rig.wait_blocked_or_idle(proxy)
+                except Exception as e:  # noqa: BLE001
+                    if rig.ref.is_alive():
+                        raise
+                    import re as _re
+                    err = _re.sub(r" \(urn:uuid:[^)]*\)", "", "; ".join(rig.actor_log.records[n_log:]) or repr(e))
+                    died = {"emit": len(events) - 1, "error": err, "fired": []}
+                    emit_targets.append(None)
+                    break
                 emit_targets.append([])
             elif st[0] == "handover":
                 hand_over()
@@ -997,7 +1115,11 @@ def run_settled(rig, rng, steps, repeats=False):
             shapes.append((cid, i, raw, obj))
         logs[cid] = dec
     emit_targets = [None if (t is None or any(x is None for x in t)) else t for t in emit_targets]
-    return {"logs": logs, "emit_targets": emit_targets, "events": events, "escaped": escaped, "shapes": shapes,
+    try:
+        enc = [encode_event(n, k) for n, k, _c in events]
+    except Exception:  # noqa: BLE001
+        enc = None
+    return {"event_specs": enc, "logs": logs, "emit_targets": emit_targets, "events": events, "escaped": escaped, "shapes": shapes,
             "flat_steps": flat_steps, "fired": fired, "actor_died": died}
 
 
@@ -1018,7 +1140,7 @@ def shape_problems(obs):
             bad.append((cid, i, "event key", raw))
         elif set(obj) != set(exp):
             bad.append((cid, i, f"keys {sorted(obj)} != {sorted(exp)}", raw))
-        elif any(strip_tags(obj[k]) != exp[k] for k in exp):
+        elif any(norm_payload(obj[k]) != exp[k] for k in exp):
             bad.append((cid, i, "argument payload differs", raw))
     return bad
 
@@ -1188,6 +1310,29 @@ def recovered_and_connected(steps, c):
     return conn and any(st[0] in EMITS for st in steps[last:])
 
 
+def py_idle(steps):
+    """Nothing in flight at the end of the schedule (mirror of Broadcast.idle on the run)."""
+    conn, outbox, queue = 0, 0, 0
+    for st in steps:
+        if st[0] == "connect":
+            conn += 1
+        elif st[0] == "disconnect":
+            conn -= 1
+        elif st[0] == "emit":
+            queue += conn
+            for a in (st[1] if len(st) > 1 else ()):
+                conn += 1 if a[1] == "connect" else -1
+        elif st[0] == "snap":
+            outbox += conn
+        elif st[0] == "handover":
+            if outbox:
+                outbox -= 1
+                queue += 1
+        elif st[0] == "run":
+            queue = max(0, queue - 1)
+    return outbox == 0 and queue == 0
+
+
 def is_subseq(a, b):
     it = iter(b)
     return all(any(x == y for y in it) for x in a)
@@ -1197,6 +1342,28 @@ def settled_py_monitors(steps, drained, obs):
     """The property predicates on one settled run (Python mirrors of the theorem statements).
     Returns [(monitor, what, detail)]."""
     bad = []
+    died = obs.get("actor_died")
+    if died:
+        # an exception escaped HttpFrontend.on_event: the event was broadcast to nobody and
+        # pykka stopped the frontend actor, so no later event reaches any client either
+        ev = (obs.get("event_specs") or [None] * (died["emit"] + 1))[died["emit"]]
+        conn = set()
+        n = 0
+        for st in steps:
+            if st[0] == "connect":
+                conn.add(st[1])
+            elif st[0] == "disconnect":
+                conn.discard(st[1])
+            elif st[0] in EMITS:
+                if n == died["emit"]:
+                    break
+                n += 1
+        bad.append(("T1_event_reaches_every_client",
+                    f"emitting event #{died['emit']} ({ev[0] if ev else '?'}) raised inside the frontend "
+                    f"[{died['error'][:300]}]: it reached none of the connected clients {sorted(conn)} and the "
+                    f"frontend actor stopped (no later event reaches anyone)",
+                    {"fatal_emit": died["emit"], "event": ev}))
+        return bad
     for e in obs["escaped"]:
         bad.append(("T2_failure_contained", e, {}))
     for c, log in obs["logs"].items():
@@ -1292,44 +1459,73 @@ _shrunk = [0]
 NEEDS_DRAIN = ("T2_isolation_complete", "T1_complete_after_recovery")
 
 
-def report_settled(chk, rig, steps, drained, repeats, obs):
+def report_settled(chk, rigbox, steps, drained, repeats, obs):
     bad = settled_py_monitors(steps, drained, obs)
+    if obs.get("actor_died"):
+        fresh_rig(rigbox)
+        if _death_reported[0]:
+            return
     if not bad:
         return
     steps = [tuple(st) for st in steps]
-    # shrink the schedule for the first failing monitor (bounded; needs the live rig)
+    # shrink the schedule for the first failing monitor (bounded; needs the live rig).  The
+    # events keep their payloads: a kept emission re-sends the event it had in the original
+    # run (failures may depend on the payload, not only on the schedule).
     if _shrunk[0] < 3:
         _shrunk[0] += 1
         mon0 = bad[0][0]
+        specs0 = obs.get("event_specs")
+        emit_no, n = {}, 0
+        for i, st in enumerate(steps):
+            if st[0] in EMITS:
+                emit_no[i] = n
+                n += 1
+        tagged = list(enumerate(steps))
+
+        def untag(cand):
+            st = [x for _i, x in cand]
+            ev = None
+            if specs0 is not None and len(specs0) == n:
+                ev = [specs0[emit_no[i]] for i, x in cand if x[0] in EMITS]
+            return st, ev
+
+        def run_cand(cand, tail):
+            st, ev = untag(cand)
+            st = st + tail
+            o = run_settled(rigbox[0], vlib.Rng(0, "c17-shrink"), st, repeats=repeats, preset_events=ev)
+            if o.get("actor_died"):
+                fresh_rig(rigbox)
+            return st, ev, o
 
         def fails(cand):
-            if not valid_schedule(cand):
+            if not valid_schedule([x for _i, x in cand]):
                 return False
+            if mon0 == "T1_event_reaches_every_client" and not any(x[0] == "connect" for _i, x in cand):
+                return False      # keep a witness client in the shrunk history
             try:
-                o = run_settled(rig, vlib.Rng(0, "c17-shrink"), cand, repeats=repeats)
+                need = mon0 in NEEDS_DRAIN
+                st, _ev, o = run_cand(cand, DRAIN_TAIL if need else [])
+                return any(m == mon0 for m, _w, _d in settled_py_monitors(st, need, o))
             except Exception:  # noqa: BLE001
                 return False
-            if mon0 not in NEEDS_DRAIN:
-                return any(m == mon0 for m, _w, _d in settled_py_monitors(cand, False, o))
-            full = cand + DRAIN_TAIL
-            o = run_settled(rig, vlib.Rng(0, "c17-shrink"), full, repeats=repeats)
-            return any(m == mon0 for m, _w, _d in settled_py_monitors(full, True, o))
         try:
-            small = vlib.shrink_list(steps, fails, max_steps=80)
-            if mon0 in NEEDS_DRAIN:
-                small = small + DRAIN_TAIL
-            o2 = run_settled(rig, vlib.Rng(0, "c17-shrink"), small, repeats=repeats)
-            bad2 = settled_py_monitors(small, drained or mon0 in NEEDS_DRAIN, o2)
+            small = vlib.shrink_list(tagged, fails, max_steps=80)
+            need = mon0 in NEEDS_DRAIN
+            st2, _ev2, o2 = run_cand(small, DRAIN_TAIL if need else [])
+            bad2 = settled_py_monitors(st2, drained or need, o2)
             if any(m == mon0 for m, _w, _d in bad2):
-                steps, obs, bad = small, o2, bad2
+                steps, obs, bad = st2, o2, bad2
         except Exception as e:  # noqa: BLE001
             chk.notes.append(f"shrinking failed: {e!r}")
+    if obs.get("actor_died"):
+        _death_reported[0] = True       # one (shrunk) history of a dying frontend is enough
     for mon, what, detail in bad[:6]:
         key = {"monitor": mon, "mode": "settled"}
         if mon == "T4_message_shape":
             key = {"monitor": mon, "event": detail.get("event")}
-        chk.monitor_failure(mon, key, what, {"steps": [list(st) for st in steps], "repeats": repeats, "drained": drained,
-                                             "logs": obs["logs"], **detail})
+        chk.monitor_failure(mon, key, what, {"steps": [list(st) for st in steps], "repeats": repeats,
+                                             "drained": py_idle(steps),
+                                             "logs": obs["logs"], "events": obs.get("event_specs"), **detail})
 
 
 def load_corpus():
@@ -1453,7 +1649,9 @@ def settled_stage(chk, rigbox, n_cases):
         delivered = sum(len(v) for v in obs["logs"].values())
         nontrivial = n_emit >= 2 and n_cl >= 2 and delivered >= 2 and ({"disconnect", "fail"} & kinds)
         chk.count(1, nontrivial_key=json.dumps(steps) if nontrivial else None)
-        report_settled(chk, rig, steps, drained, repeats, obs)
+        report_settled(chk, rigbox, steps, drained, repeats, obs)
+        if obs.get("actor_died"):
+            rows.pop()      # nothing to compare with the model: the run was cut short
     for steps, drained, obs in rows[:3]:
         chk.sample({"steps": steps[:25], "logs": obs["logs"], "emit_targets": obs["emit_targets"][:6]})
     # model vs implementation, and the Gallina monitor predicates, inside Coq
@@ -1519,14 +1717,20 @@ def message_stage(chk):
     for i in range(60 if chk.tier == "quick" else 600):
         name, kw, _ = make_event(rng, i, used)
         got = []
-        with mock.patch.object(actor.handlers.WebSocketHandler, "broadcast", side_effect=lambda m, l: got.append(m)):
-            actor.on_event(name, None, **dict(kw))
+        try:
+            with mock.patch.object(actor.handlers.WebSocketHandler, "broadcast", side_effect=lambda m, l: got.append(m)):
+                actor.on_event(name, None, **dict(kw))
+        except Exception as e:  # noqa: BLE001
+            chk.monitor_failure("T4_message_shape", {"monitor": "T4_message_shape", "event": name},
+                                f"on_event raised {type(e).__name__} instead of broadcasting the event",
+                                {"name": name, "event": encode_event(name, kw), "error": repr(e)[:300]})
+            continue
         obj = json.loads(got[0])
         rows.append((name, list(kw), list(obj)))
         chk.count(1, nontrivial_key=("msg", name, i) if kw else None)
         chk.dist(f"message:{name}")
         exp = expected_message(name, kw)
-        if obj.get("event") != name or set(obj) != set(exp) or any(strip_tags(obj[k]) != exp[k] for k in exp):
+        if obj.get("event") != name or set(obj) != set(exp) or any(norm_payload(obj[k]) != exp[k] for k in exp):
             chk.monitor_failure("T4_message_shape", {"monitor": "T4_message_shape", "event": name},
                                 "on_event message is not {'event': name} + arguments", {"name": name, "got": got[0].decode()})
     terms = [f"({g_str(n)}, {g_list([g_str(a) for a in args])}, {g_list([g_str(k) for k in keys])})" for n, args, keys in rows]
@@ -1643,10 +1847,10 @@ def replay(chk, rig):
             chk.monitor_failure(mon, {"monitor": mon, "mode": "interleaved"}, what,
                                 {"steps": jsonable_steps(steps), "logs": obs["logs"], **detail})
         return True
-    obs = run_settled(rig, chk.rng, steps, repeats=bool(case.get("repeats")))
+    obs = run_settled(rig, chk.rng, steps, repeats=bool(case.get("repeats")), preset_events=case.get("events"))
     chk.count(1)
     chk.sample({"replayed_steps": [list(st) for st in steps], "logs": obs["logs"]})
-    for mon, what, detail in settled_py_monitors(steps, bool(case.get("drained", True)), obs):
+    for mon, what, detail in settled_py_monitors(steps, py_idle(steps), obs):
         chk.monitor_failure(mon, {"monitor": mon, "mode": "settled"}, what,
                             {"steps": [list(st) for st in steps], "logs": obs["logs"], **detail})
     return True
